@@ -379,7 +379,39 @@ def check_atom_ord(repo, scratch):
     return res
 
 
-CHECKS = {"atom_ord": check_atom_ord, "atom_guards": check_atom_guards, "cmp_instrs": check_cmp_instrs, "switch_routes": check_switch_routes, "arith_tables": check_arith_tables}
+def check_lookahead(repo, scratch):
+    """C06: the look-ahead that skips clauses which cannot match (Machine::next_clause_applicable) must
+    decide a constant first argument by unification (value comparison across encodings), never by cell
+    equality, and must use the same switch routing as the dispatch loop."""
+    base = "structural::lookahead::"
+    res = {"obligations": [base + "get_constant_by_unification", base + "same_switch_routing"], "failed": [], "undecided": [],
+           "assumptions": ["[structural:lookahead] unify! compares numbers by value (unit unifynum, C05)"],
+           "functions": [{"name": "Machine::next_clause_applicable", "file": "src/machine/mod.rs", "engine": "structural", "unit": "lookahead", "under_contract": True}]}
+    t = _fn_text(repo, "src/machine/mod.rs", "next_clause_applicable")
+    if t is None:
+        res["undecided"].append(base + ": next_clause_applicable not found (lost anchor)"); return res
+    m = re.search(r"& Instruction :: GetConstant \( Level :: Shallow , lit , RegType :: Temp \( t \) \) => \{ (.*?) \} & Instruction :: GetList", t)
+    if not m:
+        res["undecided"].append(base + "get_constant_by_unification: arm not recognised (lost anchor)")
+    else:
+        arm = m.group(1)
+        by_unify = "unify ! ( self . machine_st , cell , lit )" in arm and "if self . machine_st . fail { self . machine_st . fail = false ; return false ; }" in arm
+        by_eq = re.search(r"cell = = lit|lit = = cell|cell ! = lit|lit ! = cell", arm)
+        if by_eq:
+            res["failed"].append({"obligation": base + "get_constant_by_unification", "engine": "structural", "source": "next_clause_applicable", "at": "src/machine/mod.rs",
+                                  "message": "the clause look-ahead compares the first-argument cell with the literal by cell equality: equal numbers in different encodings (big integers, rationals) make it skip matching clauses"})
+        elif not by_unify:
+            res["undecided"].append(base + "get_constant_by_unification: arm body not recognised")
+    if "self . machine_st . select_switch_on_term_index ( cell , v , c , l , s )" not in t:
+        if "select_switch_on_term_index" in t:
+            res["failed"].append({"obligation": base + "same_switch_routing", "engine": "structural", "source": "next_clause_applicable", "at": "src/machine/mod.rs",
+                                  "message": "the look-ahead passes the switch targets to select_switch_on_term_index in a different order than (v, c, l, s)"})
+        else:
+            res["undecided"].append(base + "same_switch_routing: call not recognised")
+    return res
+
+
+CHECKS = {"lookahead": check_lookahead, "atom_ord": check_atom_ord, "atom_guards": check_atom_guards, "cmp_instrs": check_cmp_instrs, "switch_routes": check_switch_routes, "arith_tables": check_arith_tables}
 
 
 def run(names, repo, scratch=None):
